@@ -122,6 +122,10 @@ func DecodeResponse(p Protocol, unary bool, reqContentType string, status int, h
 		if n := len(h.Values(k)); n > 1 {
 			r.problem("response has %d %s values: %q", n, k, h.Values(k))
 		}
+		// a content-coding is a token: a header that names the (one) encoding in use cannot be empty
+		if vs := h.Values(k); len(vs) == 1 && strings.TrimSpace(vs[0]) == "" && k != "Grpc-Accept-Encoding" {
+			r.problem("response has a %s header without a value", k)
+		}
 	}
 	switch {
 	case p == Connect && unary:
